@@ -303,6 +303,9 @@ def run(payload):
     op = payload["op"]
     if op == "schemas":
         return class_table()
+    if op == "option_fields":
+        import c15_exec
+        return list(c15_exec.OPTION_FIELDS)
     if op == "merge":
         return [run_merge(c) for c in payload["cases"]]
     if op == "exec":
